@@ -86,6 +86,48 @@ def _names(e):
     return {n.id for n in ast.walk(e) if isinstance(n, ast.Name)}
 
 
+def _negate(e):
+    if isinstance(e, ast.UnaryOp) and isinstance(e.op, ast.Not):
+        return e.operand
+    if isinstance(e, ast.Compare) and len(e.ops) == 1:
+        flip = {ast.Is: ast.IsNot, ast.IsNot: ast.Is, ast.Eq: ast.NotEq, ast.NotEq: ast.Eq, ast.In: ast.NotIn, ast.NotIn: ast.In}
+        t = flip.get(type(e.ops[0]))
+        if t is not None:
+            return ast.copy_location(ast.Compare(left=e.left, ops=[t()], comparators=e.comparators), e)
+    return ast.copy_location(ast.UnaryOp(op=ast.Not(), operand=e), e)
+
+
+def _as_quantifier(body):
+    """`for T in IT: [if F: continue]* if P: return <c>` + `return <not c>`  ->  [return all(...)] / [return any(...)], else None"""
+    if len(body) != 2 or not isinstance(body[0], ast.For) or body[0].orelse or not isinstance(body[1], ast.Return):
+        return None
+    loop, end = body
+    if not (isinstance(end.value, ast.Constant) and isinstance(end.value.value, bool)):
+        return None
+    filters = []
+    stmts = list(loop.body)
+    if not stmts:
+        return None
+    for st in stmts[:-1]:
+        if isinstance(st, ast.If) and not st.orelse and len(st.body) == 1 and isinstance(st.body[0], ast.Continue):
+            filters.append(_negate(st.test))
+        else:
+            return None
+    last = stmts[-1]
+    if not (isinstance(last, ast.If) and not last.orelse and len(last.body) == 1 and isinstance(last.body[0], ast.Return) and
+            isinstance(last.body[0].value, ast.Constant) and last.body[0].value.value is (not end.value.value)):
+        return None
+    if end.value.value:      # return True at the end: all(not P)
+        fn, elt = 'all', _negate(last.test)
+    else:
+        fn, elt = 'any', last.test
+    gen = ast.GeneratorExp(elt=elt, generators=[ast.comprehension(target=loop.target, iter=loop.iter, ifs=filters, is_async=0)])
+    call = ast.Call(func=ast.Name(id=fn, ctx=ast.Load()), args=[gen], keywords=[])
+    ret = ast.copy_location(ast.Return(value=ast.copy_location(call, loop)), loop)
+    ast.fix_missing_locations(ret)
+    return [ret]
+
+
 class _Callee:
     def __init__(self, rel, qual, node, cls):
         self.rel, self.qual, self.node, self.cls = rel, qual, node, cls
@@ -117,9 +159,15 @@ class _Callee:
         body = list(node.body)
         if body and isinstance(body[0], ast.Expr) and isinstance(body[0].value, ast.Constant) and isinstance(body[0].value.value, str):
             body = body[1:]
+        q = _as_quantifier(body)
+        self.quantified = q is not None
+        if q is not None:
+            body = q
         self.body = body
-        self.stores = {n.id for n in _own_nodes(node) if isinstance(n, ast.Name) and isinstance(n.ctx, (ast.Store, ast.Del))}
-        for n in _own_nodes(node):
+        wrap = ast.Module(body=body, type_ignores=[])
+        self.stores = {n.id for n in _own_nodes(wrap) if isinstance(n, ast.Name) and isinstance(n.ctx, (ast.Store, ast.Del))
+                       and not self._comp_bound(wrap, n)}
+        for n in _own_nodes(wrap):
             if isinstance(n, ast.ExceptHandler) and n.name:
                 self.stores.add(n.name)
         self.attr_stores = {n.attr for n in _own_nodes(node) if isinstance(n, ast.Attribute) and isinstance(n.ctx, (ast.Store, ast.Del))}
@@ -127,12 +175,20 @@ class _Callee:
             self.attr_stores.add('<subscript>')
         # names bound by comprehensions / lambdas inside the body (own scopes)
         self.scoped = set()
-        for n in ast.walk(node):
+        for n in ast.walk(wrap):
             if isinstance(n, ast.comprehension):
                 self.scoped |= {x.id for x in ast.walk(n.target) if isinstance(x, ast.Name)}
             elif isinstance(n, ast.Lambda):
                 self.scoped |= {x.arg for x in n.args.args + n.args.kwonlyargs}
         self.pure_expr = len(body) == 1 and isinstance(body[0], ast.Return) and body[0].value is not None
+
+    @staticmethod
+    def _comp_bound(wrap, name):
+        """is this Store name the target of a comprehension (own scope)?"""
+        for c in ast.walk(wrap):
+            if isinstance(c, ast.comprehension) and any(x is name for x in ast.walk(c.target)):
+                return True
+        return False
 
     def bind(self, call):
         """param -> argument expression"""
@@ -526,7 +582,8 @@ def normalise(trees, known=None, sources=None):
                     hit = True
                     break
         if hit:
-            changed[rel] = ast.parse(sources[rel], filename=rel)     # fresh tree without parent links
+            from .model import _LowerIfExp
+            changed[rel] = ast.fix_missing_locations(_LowerIfExp().visit(ast.parse(sources[rel], filename=rel)))     # fresh tree without parent links
     # callees must be taken from the copies (their own bodies get inlined calls first: bottom-up by recursion depth)
     for rel, t in changed.items():
         for qual, node, cls, _ in function_index(t):
